@@ -4,7 +4,9 @@ from vlib import *
 from l2common import *
 import streams, applyc
 
-THEOREMS = {"C07": [], "C08": []}
+THEOREMS = {"C07": ["exit_status_range"],
+            "C08": ["sget_line_some", "parse_unified_fueled", "parse_normal_fueled", "parse_context_fueled", "parse_context_hunk_spec",
+                    "parse_patch_body_fueled", "parse_quoted_string_fueled", "parse_patch_header_fueled"]}
 
 EXTREMES = ["0", "1", "9223372036854775807", "9223372036854775806", "9223372036854775808", "18446744073709551615", "99999999999999999999", "2147483647", "2147483648", "4294967296"]
 
